@@ -2,7 +2,7 @@
 import ast
 
 from sa import own, loader
-from sa.loader import norm_text
+from sa.loader import norm_text, dotted
 from sa.selftest import Mutant
 from sa import astutil as U
 
@@ -44,7 +44,7 @@ ASSUMPTIONS = ['callers do not share sub-messages between two NoteSequences (pro
 # rules whose verdict does not depend on how the statements are arranged (semantic analyses); all other rules are shape rules:
 # when one of those fails in a function that was restructured relative to reference/signatures.json the verdict is "cannot decide"
 ROBUST = ('OWN/write', 'OWN/return', 'OWN-RO/write', 'DET', 'PAIR/steps-total-order')
-FLOORS = {'OWN/write': 150, 'OWN/return': 19, 'DET/ext-call': 20, 'PAIR/end-total': 6, 'PAIR/steps-total-order': 2}
+FLOORS = {'OWN/write': 150, 'OWN/return': 19, 'DET/ext-call': 20, 'PAIR/end-total': 6, 'PAIR/steps-total-order': 2, 'PAIR/merge-scalars': 2}
 
 NONDET_PREFIX = ('random.', 'numpy.random.', 'time.', 'os.', 'uuid.', 'tempfile.')
 
@@ -61,6 +61,7 @@ def run(ctx):
   from rules import C01, C10
   C01.total_order(ctx, 'PAIR/steps-total-order')
   C10.kept_total_time(ctx, ctx.func(SL + ':transpose_note_sequence'), 'PAIR/recomputed-total')
+  merge_scalars(ctx)
 
 
 def determinism(ctx, name, res):
@@ -112,6 +113,43 @@ def pairing(ctx):
       ctx.ob('PAIR/end-total', fi, st, ok, why)
 
 
+def merge_scalars(ctx):
+  """MergeFrom concatenates repeated fields but *overwrites* scalar ones, so after merging several sequences the covering
+  scalars (total_time, total_quantized_steps) are those of the last one: merge_sequences must set them to the maximum."""
+  fi = ctx.func(SL + ':merge_sequences')
+  loop = next((n for n in fi.node.body if isinstance(n, ast.For) and any(isinstance(c, ast.Call) and isinstance(c.func, ast.Attribute) and c.func.attr == 'MergeFrom' for c in ast.walk(n))), None)
+  ctx.require(loop is not None, 'merge_sequences: MergeFrom loop not found')
+  seqs = norm_text(loop.iter)
+  res = next((norm_text(c.func.value) for c in ast.walk(loop) if isinstance(c, ast.Call) and isinstance(c.func, ast.Attribute) and c.func.attr == 'MergeFrom'), None)
+  for f in ('total_time', 'total_quantized_steps'):
+    sts = [s for s in U.walk_stmts(fi.node) if isinstance(s, ast.Assign) and norm_text(s.targets[0]) == '%s.%s' % (res, f) and s.lineno > loop.lineno]
+    ok = False
+    if len(sts) == 1 and isinstance(sts[0].value, ast.Call) and dotted(sts[0].value.func) == 'max' and len(sts[0].value.args) == 1 and \
+        isinstance(sts[0].value.args[0], (ast.GeneratorExp, ast.ListComp)):
+      g = sts[0].value.args[0]
+      ok = len(g.generators) == 1 and norm_text(g.generators[0].iter) == seqs and not g.generators[0].ifs and \
+          norm_text(g.elt) == '%s.%s' % (norm_text(g.generators[0].target), f)
+    ctx.ob('PAIR/merge-scalars', fi, sts[0] if sts else loop, ok, '%s of the merged sequence is the maximum over the inputs' % f if ok else
+           'after MergeFrom the merged sequence keeps the %s of the last input only: it may not cover the notes of a longer earlier input' % f,
+           construct='merge_sequences: %s = max over inputs' % f)
+
+
+def _fresh_sequence(fi, total_target):
+  """<X>.total_time where X is bound in this function to a NoteSequence() constructor call or an element of a list of such."""
+  base = total_target.value
+  while isinstance(base, (ast.Subscript, ast.Attribute)):
+    base = base.value
+  if not isinstance(base, ast.Name):
+    return False
+  for st in U.walk_stmts(fi.node):
+    if isinstance(st, ast.Assign) and any(isinstance(t, ast.Name) and t.id == base.id for t in st.targets):
+      v = st.value
+      for c in ast.walk(v):
+        if isinstance(c, ast.Call) and (dotted(c.func) or '').endswith('NoteSequence') and not c.args:
+          return True
+  return False
+
+
 def _paired(fi, st, tgt, val, op, totals):
   vtxt = norm_text(val) if val is not None else None
   loops_w = U.enclosing_loops(fi.node, st)
@@ -140,8 +178,11 @@ def _paired(fi, st, tgt, val, op, totals):
       guard_ok = any(U.is_gt_guard(c, v2txt, norm_text(t2)) for c in tests)
       if guard_ok:
         return True, 'max-reduction: total_time = %s under guard %s > total_time, in the same loop' % (v2txt, v2txt)
-      if U.same_block(fi.node, st, st2):
-        return True, 'same-value store to total_time in the same block'
+      # an unguarded `total_time = v` next to `end_time = v` can *lower* total_time below the end of a note the statement
+      # does not look at (F25: drum notes in apply_sustain_control_changes); it is accepted only when the sequence written to
+      # was created empty in this function, so that its notes are exactly the ones this code adds
+      if U.same_block(fi.node, st, st2) and _fresh_sequence(fi, t2):
+        return True, 'same-value store to total_time of a sequence built from scratch here, in the same block'
     if isinstance(v2, ast.Call) and U.call_name(v2) == 'max' and any(norm_text(a) in (vtxt, tgt_txt) for a in v2.args):
       return True, 'max-reduction through max()'
   # reduction through a local: end_time = E ... ; if E > X.total_time: X.total_time = E  (E a local name assigned before)
@@ -192,6 +233,8 @@ def adjust_dominance(ctx):
 
 
 MUTANTS = [
+    Mutant('merged total_time not recomputed (the defect fixed in b73b89e)', F, "    cat_seq.total_time = max(seq.total_time for seq in sequences)\n", "", rule='PAIR/merge-scalars'),
+    Mutant('held notes lower total_time again (the defect fixed in 0c8a8f3)', F, "      # Never shorten the sequence: a drum note (not an event here) may end\n      # after the last pitched note or pedal event.\n      if time > sequence.total_time:\n        sequence.total_time = time\n", "      sequence.total_time = time\n", rule='PAIR/end-total'),
     Mutant('seed C11_e: drum notes no longer count towards the recomputed total_time', F, "      end_time = max(end_time, note.end_time)\n\n      if not note.is_drum:\n        note.pitch += amount\n", "      if not note.is_drum:\n        end_time = max(end_time, note.end_time)\n        note.pitch += amount\n", rule='PAIR/recomputed-total'),
     Mutant('seed C11_b: total_quantized_steps assigned after the notes (absolute)', F,
            '  qns.total_quantized_steps = quantize_to_step(qns.total_time, steps_per_second)\n  _quantize_notes(qns, steps_per_second)\n\n  return qns\n\n\ndef transpose_note_sequence',
